@@ -723,6 +723,16 @@ def eval_comprehension(interp: Interp, node, st: St, kind):
             try:
                 comp_results = list(run_comprehension(interp, node, g, s0.fork() if kind == "dict" else s0, x, kind))
             except Unsupported:
+                if kind == "set" and g.ifs and as_concrete_items(interp, s0, x) is None:
+                    # a filtered set comprehension over a symbolic sequence: a NEW set of unknown content (over-approximation; its
+                    # filters / element expression are assumed effect-free and total)
+                    interp.ctx.assume_note("filtered set comprehension over a symbolic sequence abstracted: a new set of unknown content")
+                    t = interp.ctx.fresh_val("setcomp")
+                    s0.assume(T.F_cls(t) == interp.reg.cls(set))
+                    v = V("sym", t=t, ty=set)
+                    v.tag = ("fresh_container",)
+                    yield s0, ("ok", v)
+                    continue
                 if kind != "dict" or as_concrete_items(interp, s0, x) is not None:
                     raise
                 # a dict comprehension whose body the engine cannot quantify: a NEW dict of unknown content; exceptions and
